@@ -148,6 +148,23 @@ def run(cs, counters, script=None):
         dec = ecma119.decode(after)
         for kk, d in dec.all_problems():
             vio.append({'key': 'invalid-after:%s' % kk, 'detail': d})
+        if cfg.udf:
+            # the UDF side of the bridge too: tags, lengths (information length = what the
+            # allocation descriptors map), link structure
+            from harness.indep import udf as _iudf
+            u_after = _iudf.decode(after)
+            before_keys = {kk for kk, _d in _iudf.decode(before).problems}
+            for kk, d in u_after.problems:
+                if kk not in before_keys:
+                    vio.append({'key': 'invalid-after:udf:%s' % kk, 'detail': d})
+            counters['udf_images_redecoded'] = counters.get('udf_images_redecoded', 0) + 1
+        if cfg.rr:
+            from harness.indep import susp as _susp
+            rr_after = _susp.decode(after, dec)
+            before_rr = {kk for kk, _d in _susp.decode(before, ecma119.decode(before)).problems}
+            for kk, d in rr_after.problems:
+                if kk not in before_rr:
+                    vio.append({'key': 'invalid-after:rr:%s' % kk, 'detail': d})
         try:
             iso2 = pycdlib.PyCdlib()
             iso2.open_fp(io.BytesIO(after))
